@@ -550,6 +550,7 @@ Proof.
     + apply is_builder_cases in E. destruct E; subst kind; cbn in Hcv; now apply builder_tpl_ok.
     + apply String.eqb_eq in E. subst kind. destruct (kind_RateLimiter _ _ Hk) as [Ht _]. rewrite Ht in *.
       cbn in Hcv. split_and. now destruct (rl_no_panic o g Hf) as [_ [? _]].
+    + apply String.eqb_eq in E. subst kind. cbn in Hcv. now rewrite Hcv.
   - repeat apply orb_false; try reflexivity; apply andb_guard; intro E; apply String.eqb_eq in E; subst kind.
     + destruct (kind_RateLimiter _ _ Hk) as [Ht _]. rewrite Ht in *.
       cbn in Hcv. split_and. now destruct (rl_no_panic o g Hf) as [_ [_ ?]].
@@ -698,6 +699,12 @@ Proof.
   unfold nested. intro H. apply in_map_iff in H. destruct H as [[raw [[ok n] k]] [<- Hin]]. eauto.
 Qed.
 
+Lemma mqtt_not_a_filter cv o q raw : raw_kind raw = "MQTTProxy" -> v_image (validate_with cv o q "filter" raw) = JNull.
+Proof.
+  intro Hk. unfold validate_with. destruct (meta_ok o raw); [|reflexivity]. rewrite Hk.
+  replace (kind_info_of "filter" "MQTTProxy") with (@None kind_info) by (vm_compute; reflexivity). reflexivity.
+Qed.
+
 Lemma nested_filter_no_init o raw ok :
   nested_acc o ideal "filter" raw ok = true ->
   may_init o ideal (v_ty (validate_leaf o ideal "filter" raw)) (raw_kind raw) (v_image (validate_leaf o ideal "filter" raw)) = false.
@@ -709,7 +716,9 @@ Proof.
     assert (E : forall x, In x cv_leaf -> String.eqb (raw_kind raw) x = false) by (intros; eapply not_in_list; eauto).
     unfold is_adaptor, is_builder.
     rewrite (E "RateLimiter"), (E "Proxy"), (E "RequestAdaptor"), (E "ResponseAdaptor"), (E "RequestBuilder"), (E "ResponseBuilder");
-      try reflexivity; unfold cv_leaf; cbn; tauto.
+      try (unfold cv_leaf; cbn; tauto).
+    cbn [orb andb]. apply andb_guard. intro Em. apply String.eqb_eq in Em.
+    unfold validate_leaf. rewrite (mqtt_not_a_filter _ o ideal raw Em). reflexivity.
 Qed.
 
 Theorem Pipeline_valid_implies_precond_partial o g :
@@ -753,7 +762,7 @@ Proof.
 Qed.
 
 (** every Validate() method that traverseGo reaches from a modelled kind is one of the hand-modelled ones *)
-Lemma validators_modelled : validators_covered ("Pipeline" :: cv_leaf) = true.
+Lemma validators_modelled : validators_covered ("Pipeline" :: "MQTTProxy" :: cv_leaf) = true.
 Proof. vm_compute. reflexivity. Qed.
 
 (** ** refutations: with a single defect flag on, validation accepts a document that panics *)
@@ -779,6 +788,7 @@ Lemma refuted_builder_template : exists c, refutes 9 c. Proof. exists w_builder_
 Lemma refuted_topic_index : exists c, refutes 10 c. Proof. exists w_topic_index. refute. Qed.
 Lemma refuted_flow_namespace : exists c, refutes 11 c. Proof. exists w_flow_namespace. refute. Qed.
 Lemma refuted_stream_compress : exists c, refutes 12 c. Proof. exists w_stream_compress. refute. Qed.
+Lemma refuted_mqtt_rules : exists c, refutes 13 c. Proof. exists w_mqtt_rules. refute. Qed.
 
 (** non-vacuity: a concrete RateLimiter document is accepted by the repaired validation *)
 Example RateLimiter_nonvacuous :
